@@ -101,6 +101,17 @@ check("C10", "DESIGN.md 5/C10",
       "with the model's names and ranges; subset specs are rebuilt and compared with the parent's columns.",
       "Trusted: gamma/alpha of the materializer family. A subset is rebuilt with the parent's dropped rows supplied (rows are C06's business).")
 
+check("C06", "DESIGN.md 5/C06",
+      "TLA+ model of null discovery and the shared drop set (Materialize.tla: DropSet/Kept/RaiseFails) with row theorems model-checked "
+      "in TLC over every null pattern; exhaustive replay through all entry points, index kinds and outputs",
+      "TLC proves for every null pattern x formula x policy x caller set in the bound that the drop set only grows and ends as exactly "
+      "the caller's rows plus the null rows, that kept rows are the complement in order, and that raise fails iff an evaluated factor has a "
+      "null; every case is executed through sugar / Formula / ModelSpec(s) with and without call-time overrides / materializer, on default, "
+      "string, unsorted and non-unique indexes, for pandas / numpy / sparse, comparing cells, index label sequence, the caller's set and "
+      "the exception.",
+      "Trusted: gamma/alpha of the materializer family. hashed() is treated as an opaque factor without nulls (rows, index and drop set are "
+      "compared, not its cells).")
+
 NOT_YET = "check not yet built in this round (planned; see DESIGN.md section 5)"
 
 
